@@ -859,16 +859,24 @@ theorem WInv.cmdStep1 {s : Sys} (h : WInv s) (i : Wid) : WInv (cmdStep1With Rule
           simp only [setWk_wk, upd_same]
           exact fun h2 => (mem_wakeSelecting.mp h2).2 rfl
       | some x =>
-        simp only [handleCmdWith, hx]
-        refine h.core.afterCmd h.si.r h.si.sched hq e_cmdQ e_prog e_pend (hev0 _) (hwk0 _) ?_ ?_ (fun a ts heq => by cases heq)
-        · simp only [setWk_wk, upd_same]
-          intro q hqs
-          obtain ⟨h1, h2⟩ := mem_wakeSelecting.mp hqs
-          exact ⟨by simpa [e_wk] using h1, by simp [upd_other _ _ _ _ h2, e_wk]⟩
-        · intro q hm _
-          simp only [mentionsC, decide_eq_true_eq] at hm; subst hm
-          simp only [setWk_wk, upd_same]
-          exact fun h2 => (mem_wakeSelecting.mp h2).2 rfl
+        by_cases hd : (Cfg.releaseDead && !x.deliverable) = true
+        · simp only [handleCmdWith, hx, hd, if_true]
+          refine h.core.afterCmd h.si.r h.si.sched hq e_cmdQ e_prog e_pend (hev0 _) (hwk0 _) ?_ ?_ (fun a ts heq => by cases heq)
+          · simp only [setWk_wk, upd_same]; rw [e_wk]; exact SelSub.wakeSelecting _ t
+          · intro q hm _
+            simp only [mentionsC, decide_eq_true_eq] at hm; subst hm
+            simp only [setWk_wk, upd_same]
+            exact fun h2 => (mem_wakeSelecting.mp h2).2 rfl
+        · simp only [handleCmdWith, hx, hd, Bool.false_eq_true, if_false]
+          refine h.core.afterCmd h.si.r h.si.sched hq e_cmdQ e_prog e_pend (hev0 _) (hwk0 _) ?_ ?_ (fun a ts heq => by cases heq)
+          · simp only [setWk_wk, upd_same]
+            intro q hqs
+            obtain ⟨h1, h2⟩ := mem_wakeSelecting.mp hqs
+            exact ⟨by simpa [e_wk] using h1, by simp [upd_other _ _ _ _ h2, e_wk]⟩
+          · intro q hm _
+            simp only [mentionsC, decide_eq_true_eq] at hm; subst hm
+            simp only [setWk_wk, upd_same]
+            exact fun h2 => (mem_wakeSelecting.mp h2).2 rfl
     | queryAwait a ts =>
       simp only [handleCmdWith]
       have hq2 := queryTargets_spec a ts (s1.wk i)
@@ -964,8 +972,11 @@ theorem WInv.cmdStep1 {s : Sys} (h : WInv s) (i : Wid) : WInv (cmdStep1With Rule
         simp only [handleCmdWith, hx]
         exact h.pair.afterCmd hq e_cmdQ (hev0 _) (hwk0 _) (hsame (fun _ => rfl) (by simp [e_wk]))
       | some x =>
-        simp only [handleCmdWith, hx]
-        exact h.pair.afterCmd hq e_cmdQ (hev0 _) (hwk0 _) (hsame (fun _ => rfl) (by simp [e_wk]))
+        by_cases hd : (Cfg.releaseDead && !x.deliverable) = true
+        · simp only [handleCmdWith, hx, hd, if_true]
+          exact h.pair.afterCmd hq e_cmdQ (hev0 _) (hwk0 _) (hsame (fun _ => rfl) (by simp [e_wk]))
+        · simp only [handleCmdWith, hx, hd, Bool.false_eq_true, if_false]
+          exact h.pair.afterCmd hq e_cmdQ (hev0 _) (hwk0 _) (hsame (fun _ => rfl) (by simp [e_wk]))
     | queryAwait a ts =>
       simp only [handleCmdWith]
       have hq3 := queryTargets_sched a ts (s1.wk i)
@@ -1085,11 +1096,18 @@ theorem slice_blocked (prog : Prog) (now : Nat) (self : Pid) : ∀ (fuel : Nat) 
 theorem finish_selsub {w : WorkerSt} {cur : Pid} (x : Proc) (ordQ : List Pid) {q : Pid}
     (hq : q ∈ (w.finish cur x ordQ).selecting) : q ∈ w.selecting ∧ (q ≠ cur → (w.finish cur x ordQ).procs q = w.procs q) := by
   unfold WorkerSt.finish at hq ⊢
+  dsimp only at hq ⊢
   have h1 := SelSub.foldl (fun acc a => acc.notifyResult a cur x.finalRes) (fun w' a => SelSub.notifyResult w' a cur _)
     (orderBy ordQ (({ w with procs := upd w.procs cur (some { x with result := some x.finalRes }) } : WorkerSt).localAwaiters cur))
     { w with procs := upd w.procs cur (some { x with result := some x.finalRes }) }
+  have hrel : ∀ (w' : WorkerSt), (w'.release cur).selecting = w'.selecting ∧ ∀ q, q ≠ cur → (w'.release cur).procs q = w'.procs q := by
+    intro w'
+    unfold WorkerSt.release; split
+    · exact ⟨modProc_selecting _ _ _, fun q hne => modProc_procs_other _ _ _ _ hne⟩
+    · exact ⟨rfl, fun _ _ => rfl⟩
+  rw [(hrel _).1] at hq
   obtain ⟨h2, h3⟩ := h1 q hq
-  exact ⟨h2, fun hne => by rw [h3]; simp [upd_other _ _ _ _ hne]⟩
+  exact ⟨h2, fun hne => by rw [(hrel _).2 q hne, h3]; simp [upd_other _ _ _ _ hne]⟩
 
 /-- generic preservation of `WCore` by a worker step that consumes no command -/
 theorem WCore.afterExec {s s' : Sys} (h : WCore s) {i : Wid}
